@@ -148,6 +148,14 @@ def step (st : St) (toks : List String) : St × String :=
     | none => (st, "bad-op")
   | "tx" :: rest => (st, runTxLine st.cfg rest)
   | "txwhy" :: rest => (st, runTxLine st.cfg rest true)    -- debugging aid: which decorator rejected
+  | ["lists", which, how, toks] =>
+    -- an enacted ProposalTokensWhiteBlackChange; answer: both lists, sorted
+    if (which != "black" && which != "white") || (how != "add" && how != "rm") then (st, "bad-op") else
+    let c := editLists st.cfg (which == "black") (how == "add") (strList toks)
+    let srt (l : List String) : String :=
+      let a := (l.toArray.qsort (· < ·)).toList
+      if a.isEmpty then "-" else ",".intercalate a
+    ({ st with cfg := c }, s!"black={srt c.black} white={srt c.white}")
   | ["frozen", d] => (st, bool01 (frozen st.cfg (decS d)))
   | ["active"] => (st, bool01 (networkActive st.cfg))
   | "fp" :: rest => fpStep st rest
